@@ -444,6 +444,9 @@ class FakeBlob:
         self.n_req = 0
 
     def download_blob(self, offset=None, length=None):
+        if length is None:          # Azure API: no length = to the end of the blob; book-kept as the range it denotes
+            offset = offset or 0
+            length = max(0, len(self.data) - offset)
         return _Download(self, offset, length)
 
     def close(self):
@@ -487,7 +490,7 @@ class FakeBlob:
             REAL_SLEEP(hold)
         if kind == 'exc':
             raise ConnectionError('injected blob failure')
-        data = self.data[off:off + length]
+        data = self.data[off:] if length is None else self.data[off:off + length]     # length=None: to the end of the blob (Azure API)
         if kind == 'short':
             data = data[:max(0, len(data) - 1 - (len(data) // 3))]
         elif kind == 'empty':
@@ -1012,7 +1015,7 @@ class ShortBlob:
         me = self
         class D:
             def readall(s):
-                b = me.data[offset:offset + length]; me.n += 1
+                b = me.data[offset:] if length is None else me.data[offset:offset + length]; me.n += 1
                 if me.n - 1 == me.k:
                     return b[:len(b) // 2] if me.kind == 'short' else b''
                 return b
